@@ -74,7 +74,8 @@ def clone_env(env):
 def _plain_leaf(g, env, t):
     # no derived-type components: with deferred (not enriched) types the frontend's shape derivation of
     # 'a%x + b%y' raises 'Non-matching dimensions' (frontend limitation outside C17/C18)
-    sc = [n for n in env.scalars(t) if not env.vars[n].get('path') and not env.vars[n].get('modvar')]
+    sc = [n for n in env.scalars(t) if not env.vars[n].get('path') and not env.vars[n].get('modvar')
+          and not env.vars[n].get('aname')]     # nor outer associate names (deferred shape -> 'Non-matching dimensions')
     if sc and g.chance(75):
         return B.designator_for(env, g.pick(sc))
     return ['i', g.i(1, 9)] if t == 'int' else ['r', g.pick(B.DYADIC)]
@@ -161,6 +162,7 @@ def gen_assoc(g, env, feats, depth=0, outer_names=()):
             del child.vars[key]
         if name in child.loopvars:
             child.loopvars.remove(name)
+        ent['aname'] = True
         child.vars[name] = ent
         if ent.get('dt'):
             register_dtype(child, [[name, None]], ent['type'][5:], ent.get('ro', False))
